@@ -741,7 +741,7 @@ func init() {
 	}
 }
 
-const ruleC19 = "rapid: a state built by a short write history on 1-3 tables (0-2 indexes each), then one BatchWriteItem (1-25 requests, mixed puts and deletes, several tables, keys present and absent; batches above 20 requests generated with fixed weight; in a fifth of the cases a key may be named twice - DynamoDB rejects those, an implementation that accepts one is compared with the individual requests in the order given) or one BatchGetItem (1-15 present and absent keys per table, several tables, sometimes filled up to 60 / 99 / exactly 100 keys, the service limit). In a third of the cases the same request object is sent twice (the retry a caller performs; puts and deletes are idempotent) and the second response is the one compared. Oracle: twin-client differential - one pair of clients executes the batch, a second pair the same requests as individual PutItem / DeleteItem calls; the canonical internal dumps (tables and every index) must be equal, the reference model agrees with both, UnprocessedItems is empty; BatchGetItem responses equal, per table, the multiset of individual GetItem results for keys that exist, and (unless the open finding F-BGUNPROC applies) absent keys are not reported as unprocessed. Non-trivial = batch over >= 2 tables, or with a delete of a present key, or a BatchGet with an absent key; distinct = hash of (setup, batch)."
+const ruleC19 = "rapid: a state built by a short history (Put, UpdateItem, DeleteItem, BatchGetItem, ClearTable) on 1-3 tables (0-2 indexes each), then one BatchWriteItem (1-25 requests, mixed puts and deletes, several tables, keys present and absent; batches above 20 requests generated with fixed weight; in a fifth of the cases a key may be named twice - DynamoDB rejects those, an implementation that accepts one is compared with the individual requests in the order given) or one BatchGetItem (1-15 present and absent keys per table, several tables, sometimes filled up to 60 / 99 / exactly 100 keys, the service limit). In a third of the cases the same request object is sent twice (the retry a caller performs; puts and deletes are idempotent) and the second response is the one compared. Oracle: twin-client differential - one pair of clients executes the batch, a second pair the same requests as individual PutItem / DeleteItem calls; the canonical internal dumps (tables and every index) must be equal, the reference model agrees with both, UnprocessedItems is empty; BatchGetItem responses equal, per table, the multiset of individual GetItem results for keys that exist, and (unless the open finding F-BGUNPROC applies) absent keys are not reported as unprocessed. Non-trivial = batch over >= 2 tables, or with a delete of a present key, or a BatchGet with an absent key; distinct = hash of (setup, batch)."
 
 // TestC19 decides property C19.
 func TestC19(t *testing.T) {
@@ -764,7 +764,28 @@ func TestC19(t *testing.T) {
 		nw := rapid.IntRange(0, 10).Draw(rt, "setupWrites")
 		for i := 0; i < nw; i++ {
 			g := rapid.SampledFrom(gens).Draw(rt, "setupTable")
-			if _, _, f := w.do(model.Op{Kind: "Put", Table: g.s.Table, Item: g.item(rt)}); f != nil {
+			op := model.Op{Kind: "Put", Table: g.s.Table, Item: g.item(rt)}
+			// the history before the batch also reads in batches, updates, deletes and clears
+			switch rapid.IntRange(0, 11).Draw(rt, "setupKind") {
+			case 3:
+				op = normOp(g.updateOp(rt, w.m, 0))
+			case 5:
+				op = model.Op{Kind: "Delete", Table: g.s.Table, Key: g.key(rt)}
+			case 7, 8:
+				tb := model.TableBatch{Table: g.s.Table}
+				seen := map[string]bool{}
+				for j, n := 0, rapid.IntRange(1, 6).Draw(rt, "setupBgN"); j < n; j++ {
+					k := g.key(rt)
+					if ck := model.CanonItem(k); !seen[ck] {
+						seen[ck] = true
+						tb.Keys = append(tb.Keys, k)
+					}
+				}
+				op = model.Op{Kind: "BatchGet", Batch: []model.TableBatch{tb}}
+			case 10:
+				op = model.Op{Kind: "ClearTable", Table: g.s.Table}
+			}
+			if _, _, f := w.do(op); f != nil {
 				failCase(rt, "C19", "history:C19", f, w.asCase())
 			}
 		}
